@@ -1,6 +1,7 @@
 import MCHap.Model.Comb
 import MCHap.Model.Prior
 import MCHap.Model.Likelihood
+import MCHap.Model.CallMoves
 /-
 Model of the pedigree inheritance prior and of the pedigree sampler moves, in exact rationals:
 `mchap/pedigree/prior.py`, `mchap/pedigree/validation.py`, `mchap/pedigree/mcmc.py`.
@@ -159,8 +160,9 @@ def gametePmf (g : List Nat) (tau : Nat) (dp : List Nat) (pp : Nat) (lam : Rat) 
 def gameteConstPmf (x : Nat) (g : List Nat) (tau : Nat) (dp : List Nat) (pp : Nat) : Rat :=
   if g.getD x 0 < 1 then 0 else gametePmf (decAt g x) (tau - 1) dp pp 0
 
-/-- the raw `prob` of `gamete_allele_log_pmf` before the logarithm (may be negative: the code then
-    returns NaN); `none` = one of its assertions fails -/
+/-- the raw `prob` of `gamete_allele_log_pmf` before the logarithm; `none` = one of its assertions
+    fails or it divides by zero.  (Before the F11 repair a negative "available" count gave a
+    negative `prob`, hence NaN; the code now returns probability zero there.) -/
 def gameteAlleleRaw (gcount tau pcount pp : Nat) (lam : Rat) : Option Rat :=
   if gcount > tau ∨ pcount > pp then none
   else if gcount < 1 then some 0
@@ -169,6 +171,7 @@ def gameteAlleleRaw (gcount tau pcount pp : Nat) (lam : Rat) : Option Rat :=
     let constCount := gcount - 1
     let constPloidy := tau - 1
     let avail : Int := (pcount : Int) - (constCount : Int)
+    if avail < 0 then some 0 else      -- the constant alleles already exceed the parental copies
     let total : Int := (pp : Int) - (constPloidy : Int)
     if total = 0 then none else
     let prob : Rat := (avail : Rat) / (total : Rat) * (1 - lam)
@@ -262,9 +265,14 @@ def trioGuard (T : Trio) : Bool :=
 
 /-! ### the allele-level pmf used by the Gibbs move -/
 
-/-- weight of the "the allele came from this gamete" term.  The code adds the two terms with
-    equal weights (candidate defect F6); the repaired code would use `2 τ / (τ_p + τ_q)`. -/
-def gameteWeight (_tau _tp _tq : Nat) : Rat := 1
+/-- weight of the "the allele came from this gamete" term: `2 τ / (τ_p + τ_q)` (the variable allele
+    belongs to the gamete of p with probability `τ_p/(τ_p+τ_q)`; scaled to 1 for balanced gametes;
+    `lweight = -inf` for `τ = 0` is the same value 0) -/
+def gameteWeight (tau tp tq : Nat) : Rat := 2 * (tau : Rat) / ((tp + tq : Nat) : Rat)
+
+/-- the weights before the F6 repair: both gamete-of-origin terms were added with weight one
+    (kept to document the defect: `C18.gibbs_old_weights_counterexample`) -/
+def gameteWeightOld (_tau _tp _tq : Nat) : Rat := 1
 
 def gameteAllelePmf (gcount tau pcount pp : Nat) (lam : Rat) : Rat :=
   (gameteAlleleRaw gcount tau pcount pp lam).getD 0
@@ -276,11 +284,11 @@ def gameteAlleleOk (gcount tau pcount pp : Nat) (lam : Rat) : Bool :=
   | none => false
 
 /-- `exp(trio_allele_log_pmf)` for the allele with vector index `x` -/
-def trioAlleleWith (enum : GameteEnum) (T : Trio) (x : Nat) : Rat :=
+def trioAlleleWith (w : Nat → Nat → Nat → Rat) (enum : GameteEnum) (T : Trio) (x : Nat) : Rat :=
   let ep := T.errP
   let eq := T.errQ
-  let wp := gameteWeight T.tp T.tp T.tq
-  let wq := gameteWeight T.tq T.tp T.tq
+  let wp := w T.tp T.tp T.tq
+  let wq := w T.tq T.tp T.tq
   let U := unknownPmf T.fs
   let fx := T.fs.getD x 0
   let GP := fun g => gametePmf g T.tp T.dp T.pp T.lp
@@ -308,7 +316,7 @@ def trioAlleleWith (enum : GameteEnum) (T : Trio) (x : Nat) : Rat :=
     else 0
   s1 + s2 + unknownConstPmf T.fs T.d x * (fx * 2) * ep * eq
 
-def trioAlleleCode (T : Trio) (x : Nat) : Rat := trioAlleleWith enumDosage T x
+def trioAlleleCode (T : Trio) (x : Nat) : Rat := trioAlleleWith gameteWeight enumDosage T x
 
 /-- `trio_allele_log_pmf` does not raise (its final `assert not np.isnan(lprob)` included) -/
 def trioAlleleGuard (T : Trio) (x : Nat) : Bool :=
@@ -340,8 +348,9 @@ def trioValidWith (enum : GameteEnum) (d dp dq : List Nat) (tp tq : Nat) (lp lq 
     let gq := vsub d gp
     vle gq cq && decide (vadd gp gq = d))
 
-/-- `trio_valid`; `none` = the code raises (ValueError for λ, or `increment_dosage` on the all-zero
-    gamete of a clonal `τ_p = 0` edge, which reads outside the array) -/
+/-- `trio_valid`; `none` = the code raises (ValueError: λ > 0 with τ ≠ 2).  For a clonal `τ_p = 0`
+    edge the first gamete (all zero) always matches when the constraint test passed, so
+    `increment_dosage` is never reached with the all-zero vector it cannot handle. -/
 def trioValid (d dp dq : List Nat) (tp tq : Nat) (lp lq : Rat) : Option Bool :=
   if (lp > 0 ∧ tp ≠ 2) ∨ (lq > 0 ∧ tq ≠ 2) then none
   else some (trioValidWith enumDosage d dp dq tp tq lp lq)
@@ -383,7 +392,7 @@ def trioPmf (T : Trio) : Rat :=
 def enumSpec : GameteEnum := fun tau c => (compositions c.length tau).filter (fun g => vle g c)
 
 /-- the allele-level quantity summed over all gamete pairs (same per-pair formula as the code) -/
-def trioAlleleSpec (T : Trio) (x : Nat) : Rat := trioAlleleWith enumSpec T x
+def trioAlleleSpec (T : Trio) (x : Nat) : Rat := trioAlleleWith gameteWeight enumSpec T x
 
 /-- Mendelian validity, by specification -/
 def trioValidSpec (d dp dq : List Nat) (tp tq : Nat) (lp lq : Rat) : Bool :=
@@ -456,19 +465,22 @@ def markovBlanketAlleleProb (P : Ped) (s : PedState) (t k : Nat) : Rat :=
 /-- the state with allele `x` at slot `k` of sample `t` -/
 def setAllele (s : PedState) (t k x : Nat) : PedState := s.set t ((s.getD t []).set k x)
 
-def gibbsWeightsWith (fa : Trio → Nat → Rat) (f : Trio → Rat) (P : Ped) (s : PedState) (t k : Nat) : List Rat :=
+def pedGibbsWeightsWith (fa : Trio → Nat → Rat) (f : Trio → Rat) (P : Ped) (s : PedState) (t k : Nat) : List Rat :=
   (List.range P.n).map (fun x =>
     let s' := setAllele s t k x
     likOf P s' t * blanketAlleleWith fa f P s' t k)
 
 /-- unnormalised `exp(log_probabilities)` of `gibbs_probabilities` -/
-def gibbsWeights (P : Ped) (s : PedState) (t k : Nat) : List Rat :=
-  gibbsWeightsWith trioAlleleCode trioPmfCode P s t k
+def pedGibbsWeights (P : Ped) (s : PedState) (t k : Nat) : List Rat :=
+  pedGibbsWeightsWith trioAlleleCode trioPmfCode P s t k
 
 /-- `gibbs_probabilities` -/
 def gibbsProbabilities (P : Ped) (s : PedState) (t k : Nat) : List Rat :=
-  let w := gibbsWeights P s t k
-  w.map (· / w.sum)
+  normalise (pedGibbsWeights P s t k)
+
+/-- the Gibbs vector for an arbitrary gamete-weight function (`gameteWeight`: the code as it is) -/
+def gibbsProbabilitiesW (w : Nat → Nat → Nat → Rat) (P : Ped) (s : PedState) (t k : Nat) : List Rat :=
+  normalise (pedGibbsWeightsWith (trioAlleleWith w enumDosage) trioPmfCode P s t k)
 
 /-- `metropolis_hastings_probabilities` -/
 def metropolisHastingsProbabilities (P : Ped) (s : PedState) (t k : Nat) : List Rat :=
